@@ -132,7 +132,7 @@ Qed.
 
 Lemma validate_prototype_complete exts proto : representable_prototype exts proto -> validate_prototype proto = Ok tt.
 Proof.
-  intros (R1 & R2 & R3 & R4 & R5 & R6 & R7 & R8 & R9 & R10 & R11 & R12 & R13 & R14 & R15 & R16 & R17 & R18 & _).
+  intros (R1 & R2 & R3 & R4 & R5 & R6 & R7 & R8 & R9 & R10 & R11 & R12 & R13 & R14 & R15 & R16 & R17 & R18 & _ & _ & R21).
   unfold validate_prototype, validate_cartesian, validate_spherical, validate_color, validate_return. cbv zeta.
   rewrite (count3_complete _ _ _ _ R1), (count3_complete _ _ _ _ R2), (count3_complete _ _ _ _ R3).
   rewrite (validate_flag_complete _ _ _ _ R6), (validate_flag_complete _ _ _ _ R7), (validate_flag_complete _ _ _ _ R8),
@@ -150,7 +150,9 @@ Proof.
   assert (Hr : forallb (fun p => range_nonempty (r_type p)) proto = true).
   { apply forallb_forall. intros p Hp. specialize (R17 p Hp). unfold range_ok in R17. unfold range_nonempty.
     destruct (r_type p); try reflexivity; lia. }
-  rewrite Hc, Hx, Hr. reflexivity.
+  assert (Hfl : forallb (fun p => float_limits_ok (r_type p)) proto = true).
+  { apply forallb_forall. intros p Hp. apply float_limits_ok_iff. apply R21. exact Hp. }
+  rewrite Hc, Hx, Hr, Hfl. reflexivity.
 Qed.
 
 (** ** capacity: what [get_max_packet_points] demands, as a statement about one point.
